@@ -531,8 +531,10 @@ pub fn c08_point(case: &Case, r: &Routed, po: &PointObs, _nd: usize, acc: &mut A
         }
     }
     // u = spanning-tree sum, judged with the plain condition number
+    // the property scales the tolerance with cond_1(L) and sets no cap; the clause is judged as long as the tolerance
+    // still means something (a factor-of-two error is caught up to cond_1 = 1.4e11)
     let tol = TAU0 * ex.cond1;
-    if tol <= 0.05 && q_in_range(&ex.u) {
+    if tol <= 0.5 && q_in_range(&ex.u) {
         let err = rel_err_f(s.u, &ex.u);
         acc.inc("u_judged");
         acc.max("c08_u_err_units_cond1", err / tol);
